@@ -19,9 +19,7 @@ Theorem C13_call_spec :
   forall (st : wstate) (t : tmap) (e : expr),
     nf e = true -> forallb entry_ok t = true ->
     snd (substitute_call st t e) = Done (topdown_replace (untyped t) e).
-Proof.
-  intros st t e Hnf Hok. rewrite (subst_accepts st t e Hok). cbn [snd]. f_equal. exact (subst_spec _ e Hnf).
-Qed.
+Proof. exact call_spec. Qed.
 Print Assumptions C13_call_spec.
 
 (* the code's dictionary look-up and quantifier filter are the specification's "occurrence of a key" and
@@ -100,7 +98,7 @@ Print Assumptions C13_subst_eval_in_updated.
 Theorem C13_updated_gives_keys_their_values :
   forall sc I s, keys_ok s = true ->
     forall k v, In (k, v) s -> eval sc k (updated sc s I) = eval sc v I.
-Proof. intros sc I s H k v Hin. exact (updated_key I sc I s H k v Hin). Qed.
+Proof. exact updated_gives_keys. Qed.
 Print Assumptions C13_updated_gives_keys_their_values.
 
 (* ---- 3. a map with incompatible types is rejected before anything changes ---- *)
